@@ -184,3 +184,17 @@ impl PublishInfo {
 
 }
 
+
+
+//============ Verification hooks ============================================
+
+/// Creates a payload info for a published object with the given TAL name.
+#[cfg(feature = "verif-hooks")]
+pub fn verif_published_info(
+    tal: Arc<TalInfo>, uri: Option<uri::Rsync>,
+    roa_validity: Validity, chain_validity: Validity, point_stale: Time,
+) -> PayloadInfo {
+    Arc::new(PublishInfo {
+        tal, uri, roa_validity, chain_validity, point_stale
+    }).into()
+}
